@@ -12,6 +12,7 @@ import LogosModel.Derive
 import LogosModel.Api
 import LogosModel.CertP
 import LogosModel.FastCheck
+import LogosModel.DriverLook
 import Std.Data.HashMap
 import LogosModel.Source
 import Std.Data.HashSet
@@ -84,11 +85,28 @@ structure Case where
   states : Array StateData := #[]
   root : Nat := 0
   gerr : Nat := 0
+  /-- viability table of a definition with look-around (`none` = not computed yet) -/
+  lookT : Option (Option (List LK.LEntry)) := none
+  lookM : Std.HashMap (LK.VecL × LK.Cls) Bool := {}
+  /-- caches of the lowered patterns (filled before the first query) -/
+  resCache : Option Vec := none
+  resLCache : Option LK.VecL := none
 deriving Inhabited
 
 def Case.graph (c : Case) : Graph := { states := c.states, root := c.root }
 def Case.hasLook (c : Case) : Bool := c.hirs.any (·.hasLook)
-def Case.res (c : Case) : Vec := c.hirs.toList.map fun h => norm h.lower
+def Case.res (c : Case) : Vec := c.resCache.getD (c.hirs.toList.map fun h => norm h.lower)
+def Case.resL (c : Case) : LK.VecL := c.resLCache.getD (c.hirs.toList.map fun h => LK.normL (LK.lowerL h))
+def Case.looksOK (c : Case) : Bool := c.hirs.all LK.looksOK
+def Case.table (c : Case) : Option (List LK.LEntry) := c.lookT.getD none
+/-- fill in the table before the first query that needs it -/
+def Case.withTable (c : Case) : Case :=
+  let c := if c.resCache.isNone then { c with resCache := some c.res } else c
+  let c := if c.hasLook && c.resLCache.isNone then { c with resLCache := some c.resL } else c
+  if c.hasLook && c.looksOK && !c.nodump && c.lookT.isNone then
+    let T := LK.buildTable c.resL 4000
+    { c with lookT := some T, lookM := LK.tableMap (T.getD []) }
+  else c
 def Case.cb (c : Case) : Callbacks := fun l s rem =>
   zooCallback (c.kinds.getD l 1) (c.cbs.getD l 0) s rem
 
@@ -141,7 +159,11 @@ def certVerdict (c : Case) (fuel : Nat) : String :=
   if c.nodump then "NODUMP" else
   if c.gerr > 0 then "GERR" else
   let G := c.graph
-  if c.hasLook then (if wfB G then "LOOK" else "FAIL wf") else
+  if c.hasLook then
+    (if !wfB G then "FAIL wf" else if !c.looksOK then "LOOK" else
+      match LK.certVerdictC G c.prios.toList c.resL c.table fuel with
+      | "UNKNOWN table" => "LOOK"
+      | v => v) else
   let D := c.res
   let prios := c.prios.toList
   if (win prios D).isSome then "NULLABLE" else
@@ -282,7 +304,10 @@ def lexStr (c : Case) (isPrefix : Bool) (inp : List Nat) : String :=
   streamStr c (graphLex c.graph isPrefix c.cb c.utf8 inp)
 
 def specStr (c : Case) (inp : List Nat) : String :=
-  if c.hasLook then "LOOK" else
+  if c.hasLook then
+    (match c.table with
+     | some _ => streamStr c (LK.specLexC (LK.oracleFast c.lookM) c.prios.toList c.resL c.cb c.utf8 inp)
+     | none => "LOOK") else
   streamStr c (specLex c.prios.toList c.res c.cb c.utf8 inp)
 
 def evStr : Ev → String
@@ -497,6 +522,7 @@ partial def run (h : IO.FS.Stream) (out : IO.FS.Stream) (cur : Case) (tbl : Std.
     out.putStrLn s!"{cur.name} ATTR {flag} {" ".intercalate toks} : {attrAnswer flag toks}"
     run h out cur tbl
   | "Q" :: q =>
+    let cur := cur.withTable
     out.putStrLn s!"{cur.name} {" ".intercalate q} : {answer cur q}"
     run h out cur tbl
   | _ => run h out cur tbl
